@@ -20,6 +20,7 @@ import (
 
 	"verif/sim/core"
 	"verif/sim/runner"
+	"verif/sim/tape"
 
 	_ "verif/engines/osmsim"
 	"verif/engines/projh"
@@ -153,6 +154,7 @@ func main() {
 		// violation, 1 = violation, anything else = the process died
 		fs := flag.NewFlagSet("exec-tape", flag.ExitOnError)
 		prop := fs.String("prop", "", "")
+		fp := fs.String("fp", "", "exit 1 only for a violation with this fingerprint")
 		fs.Parse(os.Args[2:])
 		eng, ok := core.Get(*prop)
 		if !ok || fs.NArg() != 1 {
@@ -168,10 +170,67 @@ func main() {
 		}
 		res, tp := runner.ReplayVals(eng, vals, false)
 		fmt.Printf("USED %d\n", tp.Used())
-		if res.Viol != nil {
+		if res.Viol != nil && (*fp == "" || res.Viol.Fingerprint() == *fp) {
 			os.Exit(1)
 		}
 		os.Exit(0)
+	case "exec-seq":
+		// internal: execute the given runs (tapes derived from the base seed)
+		// one after the other in this process, then the tape of a replay file;
+		// exit 1 = the recorded violation reproduced, 0 = it did not
+		fs := flag.NewFlagSet("exec-seq", flag.ExitOnError)
+		prop := fs.String("prop", "", "")
+		base := fs.Uint64("base", 1, "")
+		runs := fs.String("runs", "", "comma-separated run numbers")
+		write := fs.String("write", "", "write a replay file with the prelude tapes embedded")
+		self := fs.Bool("self", false, "execute the failing run's own unminimised tape last, not the file's tape")
+		fs.Parse(os.Args[2:])
+		eng, ok := core.Get(*prop)
+		if !ok || fs.NArg() != 1 {
+			os.Exit(4)
+		}
+		rf, err := runner.ReadReplay(fs.Arg(0))
+		if err != nil {
+			os.Exit(4)
+		}
+		var pre [][]uint64
+		var preRuns []uint64
+		for _, f := range strings.Split(*runs, ",") {
+			if f == "" {
+				continue
+			}
+			r, err := strconv.ParseUint(f, 10, 64)
+			if err != nil {
+				os.Exit(4)
+			}
+			_, tp := runner.RunOnce(eng, tape.RunSeed(*base, *prop, r), false)
+			pre = append(pre, append([]uint64{}, tp.Vals...))
+			preRuns = append(preRuns, r)
+		}
+		if *self {
+			// the failing run's own, unminimised tape instead of the file's
+			_, tp := runner.RunOnce(eng, tape.RunSeed(*base, *prop, rf.Run), false)
+			rf.Tape, rf.TapeLabels, rf.Shrink = append([]uint64{}, tp.Vals...), nil, nil
+		}
+		res, _ := runner.ReplayVals(eng, rf.Tape, true)
+		if res.Viol == nil || res.Viol.Fingerprint() != rf.Violation.Fingerprint() {
+			os.Exit(0)
+		}
+		if *write != "" && *self {
+			rf.Violation, rf.Trace = *res.Viol, res.Trace
+			rf.Note = "the tape minimised inside the worker process failed there only because an earlier minimisation candidate had changed state of the code under test that survives between runs; this is the run's tape again, minimised by re-executing candidates in fresh child processes"
+			if _, err := runner.WriteReplay(filepath.Dir(*write), rf, filepath.Base(*write)); err != nil {
+				os.Exit(4)
+			}
+		} else if *write != "" {
+			rf.Prelude, rf.PreludeRuns = pre, preRuns
+			rf.Violation, rf.Trace = *res.Viol, res.Trace
+			rf.Note = fmt.Sprintf("the violation depends on state of the code under test that survives between runs in one process: runs %v (tapes embedded) are executed first, then the minimised tape of run %d", preRuns, rf.Run)
+			if _, err := runner.WriteReplay(filepath.Dir(*write), rf, filepath.Base(*write)); err != nil {
+				os.Exit(4)
+			}
+		}
+		os.Exit(1)
 	case "replay":
 		fs := flag.NewFlagSet("replay", flag.ExitOnError)
 		quiet := fs.Bool("quiet", false, "do not print the trace")
@@ -256,6 +315,12 @@ func replay(exe, path string, quiet, child bool) int {
 		return 0
 	}
 	var res core.Result
+	for _, vals := range rf.Prelude {
+		runner.ReplayVals(eng, vals, false)
+	}
+	if len(rf.Prelude) > 0 && !quiet {
+		fmt.Printf("replay: %d earlier run(s) executed first in this process (runs %v)\n", len(rf.Prelude), rf.PreludeRuns)
+	}
 	if rf.Tape == nil {
 		res, _ = runner.RunOnce(eng, rf.RunSeed, true)
 	} else {
